@@ -6,7 +6,7 @@ from common import shrink_text  # noqa: F401
 
 ID = "C04"
 LEVEL = "other"
-GEN = ["RxGen", "UnicodeGen", "InlineGen", "UtilGen"]
+GEN = ["RxGen", "UnicodeGen", "InlineGen", "BlockGen", "UtilGen", "NormalizeGen"]
 COQ = ["Props/C04.vo"]
 EXPLANATION = (
     "Oracle-level decision with a proved core. An independent reference printer (tools/canon.py) writes random document "
@@ -86,5 +86,9 @@ def replay(ctx, case):
 
 
 def correspondence(ctx):
+    import corr_block
     import corr_inline
-    return corr_inline.run(ctx, ctx.n(1500, 20000))
+    a = corr_inline.run(ctx, ctx.n(1500, 20000))
+    b = corr_block.run(ctx, ctx.n(1200, 20000))
+    return {"evaluations": a["evaluations"] + b["evaluations"], "disagreements": (a["disagreements"] + b["disagreements"])[:20],
+            "parts": {"inline model": a["evaluations"], "block model": b["evaluations"]}, "samples": a["samples"]}
